@@ -95,14 +95,15 @@ func (d *ioDelegate) TryCache(h hash.Hash, data []byte) (bool, error) {
 		return false, nil
 	}
 
-	if d.infile == os.Stdin {
-		// Write to a temporary file to enable seeking.
+	if _, err := d.infile.Seek(0, io.SeekCurrent); d.infile == os.Stdin || err != nil {
+		// Write to a temporary file to enable seeking: standard input, and
+		// an input path that names a pipe, can only be read once.
 		f, err := ioutil.TempFile("", "gts-tmp-*")
 		if err != nil {
 			return false, nil
 		}
 
-		if _, err := io.Copy(f, os.Stdin); err != nil {
+		if _, err := io.Copy(f, d.infile); err != nil {
 			d.Close()
 			return false, err
 		}
@@ -112,6 +113,9 @@ func (d *ioDelegate) TryCache(h hash.Hash, data []byte) (bool, error) {
 			return false, err
 		}
 
+		if d.infile != os.Stdin {
+			d.infile.Close()
+		}
 		d.infile = f
 		d.tmpin = true
 	}
